@@ -402,7 +402,9 @@ fn process_object(m: &Map<String, Value>, top: bool, ctx: &mut Ctx) -> Result<Va
                     if name == "_sd" || name == "..." {
                         return Err(format!("disclosed claim name {name} is reserved"));
                     }
-                    if out.contains_key(name) {
+                    // "already exists at the level of the _sd key": the level as signed — at the top that
+                    // includes _sd_alg, which is only removed after processing
+                    if out.contains_key(name) || (top && name == "_sd_alg" && m.contains_key("_sd_alg")) {
                         return Err(format!("disclosed claim name {name} already exists at this level"));
                     }
                     let val = process_value(&arr[2], ctx)?;
@@ -411,6 +413,10 @@ fn process_object(m: &Map<String, Value>, top: bool, ctx: &mut Ctx) -> Result<Va
             }
             _ => ctx.soft.push("_sd is not an array".into()),
         }
+    }
+    if top {
+        // "Remove the claim _sd_alg from the SD-JWT payload" happens after the disclosures were applied
+        out.shift_remove("_sd_alg");
     }
     Ok(Value::Object(out))
 }
